@@ -126,10 +126,11 @@ Inductive op :=
 | Untag (r : N)
 | Delete (d : N)
 | SaveIndex
+| TagDig (d : N)            (* Tag(desc, <the digest string of desc>): tag() enters the digest reference only *)
 | Forget (live : list N).   (* the in-memory half of GC: digest references of content outside
                                [live] are dropped (tagged content always stays), then saveIndex *)
 
-Inductive res := ROk | RExists | RNotFound | RMismatch.
+Inductive res := ROk | RExists | RNotFound | RMismatch | RInvalid | RInvalidRef.
 
 Definition memN (x : N) (l : list N) : bool := existsb (N.eqb x) l.
 
@@ -191,6 +192,8 @@ Definition op_mem (s : st) (o : op) : list (N * N) * list N :=
   | Delete d =>
       (filter (fun e => negb (snd e =? d)) (stags s), filter (fun x => negb (x =? d)) (sdigs s))
   | SaveIndex => (stags s, sdigs s)
+  | TagDig d =>
+      if exists_file (sfs s) (FBlob d) then (stags s, dig_add d (sdigs s)) else (stags s, sdigs s)
   | Forget live =>
       (stags s, filter (fun x => memN x live || existsb (fun e => snd e =? x) (stags s)) (sdigs s))
   end.
@@ -220,6 +223,7 @@ Definition op_steps (s : st) (o : op) : list mstep :=
       let un := if exists_file (sfs s) (FBlob d) then [Unlink (FBlob d)] else [] in
       if unlink_first then un ++ ix else ix ++ un
   | SaveIndex => index_steps c tags' digs'
+  | TagDig d => if exists_file (sfs s) (FBlob d) then auto_idx c tags' digs' else []
   | Forget _ => auto_idx c tags' digs'
   end.
 
@@ -232,6 +236,7 @@ Definition op_res (s : st) (o : op) : res :=
   | Untag r => match tag_get r (stags s) with Some _ => ROk | None => RNotFound end
   | Delete d => if exists_file (sfs s) (FBlob d) then ROk else RNotFound
   | SaveIndex => ROk
+  | TagDig d => if exists_file (sfs s) (FBlob d) then ROk else RNotFound
   | Forget _ => ROk
   end.
 
@@ -298,6 +303,13 @@ Definition layout_okb (fs : FS) : bool :=
   | None => false
   end.
 
+(* initialisation attempted repeatedly: every oci.New but the last is cut at ks[i] *)
+Fixpoint init_attempts (layout_inplace : bool) (ks : list nat) (fs : FS) (c : nat) : FS * nat :=
+  match ks with
+  | [] => (fs, c)
+  | k :: r => init_attempts layout_inplace r (apply (firstn k (new_steps layout_inplace fs c)) fs) (S c)
+  end.
+
 (* New does not fail on this directory: what exists parses *)
 Definition new_okb (fs : FS) : bool :=
   (negb (exists_file fs FLayout) || layout_okb fs) &&
@@ -331,6 +343,91 @@ Definition run_hop (s : st) (x : hop) : st :=
   end.
 
 Definition runc (h : list hop) (s : st) : st := fold_left run_hop h s.
+
+(* ---------- the API of the Store: one call = a list of primitives ---------- *)
+(* [mt d]: the descriptor of blob d carries a manifest media type; [dec d]: its bytes decode as
+   a manifest (graph.Index / loadIndex succeed on it).  A manifest-typed blob that does not
+   decode is stored by Storage.Push, fails graph.Index and is removed again (Store.Push);
+   Store.Tag indexes a manifest-typed blob first and refuses it when that fails. *)
+Variable mt : N -> bool.
+Variable dec : N -> bool.
+
+Inductive api :=
+| APush (d : N) (c : list N)
+| ATag (d r : N)
+| AUntag (r : N)
+| ATagDigest (d : N)                   (* Tag with the digest string as reference *)
+| AUntagDigest (d : N)                 (* Untag of a digest string: refused *)
+| ADelete (d : N) (cascade : list N)   (* AutoGC: the nodes deleted after d, in queue order *)
+| ASaveIndex
+| AGC (live sweep : list N)            (* live set of the mark phase; blobs swept, in directory order *)
+| AReopen.                             (* oci.New on the existing layout: reads only *)
+
+Definition expand (s : st) (a : api) : list op :=
+  match a with
+  | APush d c =>
+      if mt d then
+        if dec d then [Push d c true]
+        else if exists_file (sfs s) (FBlob d) then [Push d c false]      (* AlreadyExists *)
+        else if H c =? d then [Push d c false; Delete d]                 (* stored, unindexable, removed *)
+        else [Push d c false]                                            (* verification fails first *)
+      else [Push d c false]
+  | ATag d r =>
+      if exists_file (sfs s) (FBlob d) && mt d && negb (dec d) then [] else [Tag d r]
+  | AUntag r => [Untag r]
+  | ATagDigest d =>
+      if exists_file (sfs s) (FBlob d) && mt d && negb (dec d) then [] else [TagDig d]
+  | AUntagDigest _ => []
+  | ADelete d cascade => Delete d :: map Delete cascade
+  | ASaveIndex => [SaveIndex]
+  | AGC live sweep => Forget live :: map Delete sweep
+  | AReopen => []
+  end.
+
+Definition api_res (s : st) (a : api) : res :=
+  match a with
+  | APush d c =>
+      match op_res s (Push d c false) with
+      | ROk => if mt d && negb (dec d) then RInvalid else ROk
+      | r => r
+      end
+  | ATag d r =>
+      if exists_file (sfs s) (FBlob d) then (if mt d && negb (dec d) then RInvalid else ROk) else RNotFound
+  | AUntag r => op_res s (Untag r)
+  | ATagDigest d =>
+      if exists_file (sfs s) (FBlob d) then (if mt d && negb (dec d) then RInvalid else ROk) else RNotFound
+  | AUntagDigest d => if memN d (sdigs s) then RInvalidRef else RNotFound
+  | ADelete d _ => op_res s (Delete d)
+  | ASaveIndex | AGC _ _ | AReopen => ROk
+  end.
+
+(* a call interrupted after k micro-steps of its concatenated step list, then oci.New:
+   the cut falls into one primitive (Proofs: seq_cut); the earlier ones completed *)
+Fixpoint crash_ops (s : st) (os : list op) (k : nat) : st :=
+  match os with
+  | [] => reopen (sfs s) (S (sctr s))
+  | o :: r =>
+      let n := length (op_steps s o) in
+      if Nat.leb k n then run_hop s (Crashed o k) else crash_ops (run_op s o) r (k - n)
+  end.
+
+Inductive acall := ADone (a : api) | ACrashed (a : api) (k : nat).
+
+Definition run_acall (s : st) (x : acall) : st :=
+  match x with
+  | ADone a => run (expand s a) s
+  | ACrashed a k => crash_ops s (expand s a) k
+  end.
+
+Definition runa (h : list acall) (s : st) : st := fold_left run_acall h s.
+
+(* loadIndex succeeds on this directory: index.json parses, every entry names a blob file, and
+   every manifest-typed entry decodes *)
+Definition load_okb (fs : FS) : bool :=
+  match read_index fs with
+  | Some l => forallb (fun e => exists_file fs (FBlob (fst e)) && (negb (mt (fst e)) || dec (fst e))) l
+  | None => false
+  end.
 
 Fixpoint chunks_of (l : list atom) : option (list N) :=
   match l with
@@ -384,11 +481,39 @@ End Model.
 (* writeIndexFile goes through writeFileAtomic = open(O_EXCL) a sibling, write, close, rename *)
 Definition src_inplace : bool :=
   negb (list_eqb str_eqb calls_write_index [b "writeFileAtomic"] &&
-        list_eqb str_eqb calls_write_atomic [b "os.OpenFile"; b "f.Write"; b "f.Close"; b "os.Rename"]).
+        list_eqb str_eqb calls_write_atomic [b "os.OpenFile"; b "f.Write"; b "f.Close"; b "os.Rename"; b "os.Remove"]).
 (* Store.delete: saveIndex before storage.Delete *)
 Definition src_unlink_first : bool :=
   negb (list_eqb str_eqb calls_delete [b "s.saveIndex"; b "s.storage.Delete"]).
 (* Store.GC: rebuild the maps, save index.json, only then remove blob files *)
+(* control flow around the effects (translator kind callguards): the conditions under which the
+   model's operations write index.json, index a manifest, remove a blob *)
+Definition guard_eqb (x y : list (str * list str)) : bool :=
+  list_eqb (fun a c => str_eqb (fst a) (fst c) && list_eqb str_eqb (snd a) (snd c)) x y.
+Definition src_guards_ok : bool :=
+  (* delete: saveIndex iff a reference went (or came back) and AutoSaveIndex; the unlink unconditionally *)
+  guard_eqb guards_delete [(b "s.saveIndex", [b "indexChanged && s.AutoSaveIndex"]); (b "s.storage.Delete", [])] &&
+  (* tag: by digest when the reference is not the digest, by reference always, save iff AutoSaveIndex *)
+  guard_eqb guards_tag [(b "s.tagResolver.Tag", [b "reference != dgst"]); (b "s.tagResolver.Tag", []);
+                        (b "s.saveIndex", [b "s.AutoSaveIndex"])] &&
+  guard_eqb guards_untag [(b "s.tagResolver.Untag", []); (b "s.saveIndex", [b "s.AutoSaveIndex"])] &&
+  (* Push: store, index, remove again iff indexing failed, tag iff manifest-typed *)
+  guard_eqb guards_push [(b "s.storage.Push", []); (b "s.graph.Index", []);
+                         (b "s.storage.Delete", [b "err != nil"]);
+                         (b "s.tag", [b "descriptor.IsManifest(expected)"])] &&
+  (* Tag: existence, index iff manifest-typed, tag *)
+  guard_eqb guards_tag_api [(b "s.storage.Exists", []); (b "s.graph.Index", [b "descriptor.IsManifest(desc)"]);
+                            (b "s.tag", [])] &&
+  (* GC: save iff AutoSaveIndex; remove exactly the unreachable *)
+  guard_eqb guards_gc [(b "s.saveIndex", [b "s.AutoSaveIndex"]);
+                       (b "os.Remove", [b "!reachableNodes.Contains(blobDigest)"])] &&
+  guard_eqb guards_saveindex [(b "s.saveIndex", [])] &&
+  (* writeFileAtomic: rename iff everything before succeeded, the temp is removed only on error *)
+  guard_eqb guards_write_atomic [(b "os.Rename", [b "err == nil"]); (b "os.Remove", [b "err != nil"])] &&
+  (* Storage.Push: the temp is removed only when the rename failed *)
+  guard_eqb guards_storage_push [(b "ensureDir", []); (b "s.ingest", []); (b "os.Rename", []);
+                                 (b "os.Remove", [b "err != nil"])].
+
 (* ensureOCILayoutFile writes oci-layout through writeFileAtomic *)
 Definition src_layout_inplace : bool :=
   negb (list_eqb str_eqb calls_ensure_layout [b "writeFileAtomic"]).
@@ -400,3 +525,21 @@ Definition src_push_order_ok : bool :=
   list_eqb str_eqb calls_store_push [b "s.storage.Push"; b "s.tag"] &&
   list_eqb str_eqb calls_storage_push [b "s.ingest"; b "os.Rename"] &&
   list_eqb str_eqb calls_ingest [b "os.CreateTemp"; b "ioutil.CopyBuffer"; b "os.Chmod"].
+
+(* lock discipline assumed by the two models (translator kind callseq with mark_defer):
+   Push / Tag / Untag / SaveIndex hold the READ lock of Store.sync from their first statement to
+   their return (so they interleave with one another: Model/OciCrashConc.v), Delete and GC hold
+   the WRITE lock (so they run alone: sequential operations between concurrent batches);
+   saveIndex holds indexLock from before the resolver snapshot until the file is renamed into
+   place (TLockSnap .. TPublishIndex .. TUnlock is one critical section); the helpers tag and
+   delete take no lock of their own (they run under their caller's). *)
+Definition src_locks_ok : bool :=
+  list_eqb str_eqb locks_push [b "s.sync.RLock"; b "defer s.sync.RUnlock"; b "s.storage.Push"; b "s.tag"] &&
+  list_eqb str_eqb locks_tag [b "s.sync.RLock"; b "defer s.sync.RUnlock"; b "s.storage.Exists"; b "s.tag"] &&
+  list_eqb str_eqb locks_untag [b "s.sync.RLock"; b "defer s.sync.RUnlock"; b "s.tagResolver.Untag"; b "s.saveIndex"] &&
+  list_eqb str_eqb locks_saveindex_api [b "s.sync.RLock"; b "defer s.sync.RUnlock"; b "s.saveIndex"] &&
+  list_eqb str_eqb locks_delete [b "s.sync.Lock"; b "defer s.sync.Unlock"; b "s.delete"] &&
+  list_eqb str_eqb locks_gc [b "s.sync.Lock"; b "defer s.sync.Unlock"; b "s.gcIndex"; b "s.saveIndex"; b "os.Remove"] &&
+  list_eqb str_eqb locks_saveindex [b "s.indexLock.Lock"; b "defer s.indexLock.Unlock"; b "s.tagResolver.Map"; b "s.writeIndexFile"] &&
+  list_eqb str_eqb locks_tag_inner [b "s.tagResolver.Tag"; b "s.tagResolver.Tag"; b "s.saveIndex"] &&
+  list_eqb str_eqb locks_delete_inner [b "s.saveIndex"; b "s.storage.Delete"].
